@@ -392,6 +392,36 @@ def functions_for(reg, prop):
     return names
 
 
+def unchecked_assumptions(reg, names=None):
+    """Everything the discharged obligations rest on without checking it: assumed contracts, the
+    preconditions under which each function in scope is verified (a caller outside the contracts is
+    not checked against them), class invariants assumed for parameter objects, and the definitional
+    facts of call-relative spec functions."""
+    out = ["assumed contract: %s (%s)" % (n, c.note) for n, c in reg.contracts.items() if c.assumed]
+    for n, c in reg.contracts.items():
+        if c.assumed or (names is not None and n not in names):
+            continue
+        if c.requires:
+            out.append("%s is verified under its preconditions (%s); callers outside the contracts are not "
+                       "checked against them" % (n, "; ".join("%s: %s" % (l, e[:160]) for l, e in c.requires)))
+        for l, e in getattr(c, "definitions", []):
+            out.append("definition assumed in %s: %s: %s" % (n, l, e[:200]))
+        if getattr(c, "implicit_guards", ()):
+            out.append("%s is verified on the paths where it does not raise itself; implicit exceptions treated "
+                       "as guards: %s" % (n, ", ".join(c.implicit_guards)))
+        for pn, ty in c.params.items():
+            if isinstance(ty, tuple) and ty[0] in ("obj", "objlist") and pn != "self" and reg.invariant_of(ty[1]):
+                out.append("class invariant of %s assumed for parameter %s of %s (%s)" % (
+                    ty[1], pn, n, ", ".join(l for l, _ in reg.invariant_of(ty[1]))))
+    for cls in ("SchedOp",):
+        if cls in reg.classes and reg.invariant_of(cls):
+            out.append("shape of the operations handed to the Revolve-family iterator (contracts/shapes.py: %s) is "
+                       "assumed; validated at run time on every schedule of the bounded boxes, and an obligation "
+                       "at every construction site of revolve / disk_revolve / periodic_disk_revolve"
+                       % ", ".join(l for l, _ in reg.invariant_of(cls)))
+    return out
+
+
 def run_property(prop, tier="quick", seed=0, repo="/repo"):
     timeout = 30 if tier == "quick" else 90
     reg0 = build_registry()
@@ -403,8 +433,7 @@ def run_property(prop, tier="quick", seed=0, repo="/repo"):
     reg, recs, obligations, res, covers, wall = verify(repo=repo, only=names, timeout_s=timeout, exact=True)
     out = summarize(reg, recs, obligations, res, covers, props=[prop])
     out["obligations"] += fr
-    out["assumptions"] = ["assumed contract: %s (%s)" % (n, c.note) for n, c in reg.contracts.items()
-                          if c.assumed]
+    out["assumptions"] = unchecked_assumptions(reg, names)
     out["solve_wall_s"] = round(wall, 2)
     for o in out["obligations"]:
         if o["status"] in ("failed", "unknown") and o.get("model"):
@@ -471,8 +500,7 @@ def run_all(tier="quick", seed=0, repo="/repo"):
     reg, recs, obligations, res, covers, wall = verify(repo=repo, timeout_s=timeout)
     out = summarize(reg, recs, obligations, res, covers)
     out["obligations"] += frame_obligations(repo)
-    out["assumptions"] = ["assumed contract: %s (%s)" % (n, c.note) for n, c in reg.contracts.items()
-                          if c.assumed]
+    out["assumptions"] = unchecked_assumptions(reg, None)
     out["solve_wall_s"] = round(wall, 2)
     for o in out["obligations"]:
         if o["status"] in ("failed", "unknown") and o.get("model"):
